@@ -506,6 +506,8 @@ func init() {
 			return tuple{e.goInt(0), iface{}}
 		}
 	}
+	// common.Report prints a "please report this bug" banner with a stack dump to stderr
+	intrinsics[ModPath+"/common.Report"] = noop
 	const lg = "github.com/youchainhq/go-youchain/logging."
 	for _, n := range []string{"Trace", "Debug", "Info", "Warn", "Error"} {
 		intrinsics[lg+n] = noop
